@@ -85,6 +85,8 @@ class ExprMixin:
         return VConst(frozenset(vals))
 
     def ex_Dict(self, e, fr):
+        if any(k is None for k in e.keys):
+            return self._dict_display_with_unpacking(e, fr)
         keys = []
         for k in e.keys:
             if k is None:
@@ -96,6 +98,24 @@ class ExprMixin:
         vals = [self.eval(v, fr) for v in e.values]
         ty = Rec("dict", as_dict=True, **{k: v.ty for k, v in zip(keys, vals)})
         return VRec(ty, dict(zip(keys, vals)))
+
+    def _dict_display_with_unpacking(self, e, fr):
+        """{**a, 'k': v, **b}: left to right, later entries win. Symbolic operands give an Array term
+        (lambda k. b[k] if present else acc[k])."""
+        from .ty import Dict as _Dict, EmptyDict
+        acc = EmptyDict
+        for k, vx in zip(e.keys, e.values):
+            v = self.eval(vx, fr)
+            if k is None:
+                if isinstance(v, VAny):
+                    self.safety(ValSort.is_D(v.t), "type(dict) of dynamic value", e.lineno)
+                b = _Dict.pack(v)
+                kk = z3.Const(fresh_name("k"), z3.StringSort())
+                acc = z3.Lambda([kk], z3.If(z3.Select(b, kk) != ValSort.Absent, z3.Select(b, kk), z3.Select(acc, kk)))
+            else:
+                kv = self.eval(k, fr)
+                acc = z3.Store(acc, coerce(kv, Str).t, to_val(v))
+        return VDict(acc)
 
     def ex_JoinedStr(self, e, fr):
         parts = []
@@ -188,6 +208,10 @@ class ExprMixin:
         try:
             return merge(c, a, b)
         except Unsupported:
+            if self.merge_depth == 0 and self.spec_depth == 0:
+                # operands of different representation (e.g. `path or ""`): the VALUE may be used (str(...)), so
+                # split the path instead of collapsing the result to its truth value
+                return a if self.decide(c) else b
             # only the truth value matters in most uses (conditions); keep truthiness
             return VBool(z3.If(c, truthy(a), truthy(b)))
 
@@ -301,6 +325,11 @@ class ExprMixin:
         if isinstance(b, VAny) and isinstance(a, (VInt, VBool)):
             self.note_any_typed(b, "int", lineno)
             b = coerce(b, Int)
+        if isinstance(a, VAny) and isinstance(b, VAny):
+            # two dynamic values: only the numeric ordering is modelled (both must be int/bool, else undecided/unsafe)
+            self.note_any_typed(a, "int", lineno)
+            self.note_any_typed(b, "int", lineno)
+            a, b = coerce(a, Int), coerce(b, Int)
         if isinstance(a, (VInt, VBool)) and isinstance(b, (VInt, VBool)):
             x, y = coerce(a, Int).t, coerce(b, Int).t
             return {ast.Lt: x < y, ast.LtE: x <= y, ast.Gt: x > y, ast.GtE: x >= y}[type(op)]
@@ -329,6 +358,9 @@ class ExprMixin:
         if isinstance(container, VOpt):
             self.safety(z3.Not(container.isnone), "none container", lineno)
             container = container.val
+        from .ty import VSet
+        if isinstance(container, VSet):
+            container = container.lst  # membership in set(xs) is membership in xs
         if isinstance(container, VConst):
             py = container.py
             if isinstance(py, (set, frozenset, tuple, list, dict)):
@@ -359,6 +391,11 @@ class ExprMixin:
             return z3.Or([eq(item, x) for x in container.items])
         if isinstance(container, VList):
             elem = container.elem
+            if elem is Int and isinstance(item, VAny):
+                # Python equality between numbers: a bool equals its int value; a non-number equals no int
+                t = item.t
+                return z3.And(z3.Or(ValSort.is_I(t), ValSort.is_B(t)),
+                              z3.Contains(container.seq, z3.Unit(coerce(item, Int).t)))
             return z3.Contains(container.seq, z3.Unit(elem.pack(item)))
         if isinstance(container, VRec) and container.ty.as_dict:
             ci = concrete_of(item)
@@ -435,6 +472,9 @@ class ExprMixin:
                     return r
             if obj.ty.as_dict and attr in ("get", "items", "keys", "values", "setdefault", "update", "pop"):
                 return VMethod(obj, attr, e.value if e is not None else None)
+            from .ex_call import EXTERNALS
+            if f"{obj.ty.name}.{attr}" in EXTERNALS:
+                return VMethod(obj, attr, e.value if e is not None else None)  # inherited from an external base class
             raise Unsupported(f"record {obj.ty.name} has no field/method {attr!r} (declare it in the contract types)")
         if isinstance(obj, VNode):
             return self.node_attr(obj, attr, lineno)
@@ -447,6 +487,12 @@ class ExprMixin:
             return VConst(("ext", f"{obj.info}.{attr}"))
         if isinstance(obj, VConst) and isinstance(obj.py, tuple) and len(obj.py) == 2 and obj.py[0] == "ext":
             return self.external_attr(obj.py[1], attr)
+        if isinstance(obj, VConst) and isinstance(obj.py, tuple) and len(obj.py) == 2 and obj.py[0] == "repomod":
+            # `from pkg import module` followed by `module.name`: resolve the name in that repository module
+            r = self.module_name(self.repo.module(obj.py[1]), attr)
+            if r is None:
+                raise Unsupported(f"module {obj.py[1]} has no attribute {attr!r}")
+            return r
         if isinstance(obj, VTuple) and hasattr(obj, "names") and attr in obj.names:
             return obj.items[obj.names.index(attr)]
         if isinstance(obj, VExc):
@@ -461,6 +507,11 @@ class ExprMixin:
     def node_attr(self, node: VNode, attr, lineno=0):
         nty = node.ty
         self.safety(node.t != nty.null, f"none .{attr}", lineno)
+        alias = getattr(nty, "attr_alias", None)
+        if alias is not None:
+            # one Python attribute name with two meanings depending on the node kind (ast.Constant.value is the
+            # constant, every other .value is a child node): the hook decides the kind (forks, or needs entailment)
+            attr = alias(self, node, attr, lineno) or attr
         if attr not in nty.attrs:
             if attr in getattr(nty, "methods", ()):
                 return VMethod(node, attr)
@@ -656,7 +707,9 @@ class ExprMixin:
             srt = z3.SeqSort(elem.sort())
             parts = [z3.If(c, z3.Unit(elem.pack(v)), z3.Empty(srt)) if c is not None else z3.Unit(elem.pack(v))
                      for c, v in out]
-            return VList(elem, seq=z3.Concat(*parts) if len(parts) > 1 else parts[0])
+            res = VList(elem, seq=z3.Concat(*parts) if len(parts) > 1 else parts[0])
+            res.cond_items = (res.seq, out)  # (guard, value) per source item; valid while .seq is this very term
+            return res
         if isinstance(it, VList):
             return self._comp_recfun(e, g, it, fr)
         raise Unsupported(f"comprehension over {it}")
@@ -735,7 +788,8 @@ class ExprMixin:
                 caps.append(c)
         holes = [z3.Const(f"cap!{i}!{_mangle_name(c.sort().name())}", c.sort()) for i, c in enumerate(caps)]
         abst = [z3.substitute(t, *zip(caps, holes)) if caps else t for t in terms]
-        key = (kind, elem.name, oty.name if oty else "", tuple(t.sexpr() for t in abst))
+        memo = {}
+        key = (kind, elem.name, oty.name if oty else "", tuple(_canon_key(t, memo) for t in abst))
         if key not in RECFUNS:
             isort = z3.SeqSort(elem.sort())
             if kind == "mapfilter":
@@ -779,6 +833,33 @@ class ExprMixin:
 
 
 RECFUNS: dict = {}  # z3 RecFunctions live in the global context: one table per process
+
+
+_AC_KINDS = (z3.Z3_OP_AND, z3.Z3_OP_OR, z3.Z3_OP_EQ, z3.Z3_OP_DISTINCT, z3.Z3_OP_ADD, z3.Z3_OP_MUL)
+
+
+def _canon_key(t, memo):
+    """Structural key of a term that is invariant under argument order of commutative operators (z3's simplifier
+    orders such arguments by internal ids, so the same comprehension text could otherwise get different keys).
+    Equal keys => terms equal up to commutativity, so sharing one RecFunction between them is sound."""
+    import hashlib
+    i = t.get_id()
+    if i in memo:
+        return memo[i]
+    if z3.is_app(t) and t.num_args() > 0:
+        d = t.decl()
+        kids = [_canon_key(c, memo) for c in t.children()]
+        if d.kind() in _AC_KINDS:
+            kids = sorted(kids)
+        try:
+            params = [str(x) for x in d.params()]
+        except Exception:  # noqa
+            params = [d.sexpr()]
+        r = hashlib.sha1("|".join([d.name(), str(d.kind()), ",".join(params), t.sort().sexpr()] + kids).encode()).hexdigest()
+    else:
+        r = t.sort().sexpr() + ":" + t.sexpr()
+    memo[i] = r
+    return r
 
 
 def _mangle_name(n):
